@@ -101,11 +101,13 @@ def _data_specs(rng, kind, K, D, F, N, E):
     else:
         specs['obs'] = {'kind': 'rclusters', 'shape': lead + [N, D], 'K': K,
                         'seed': seed, 'layout': layout,
-                        'sep': float(_choice(rng, [0.5, 2.0, 4.0]))}
+                        'sep': float(_choice(rng, [0.5, 2.0, 4.0])),
+                        'scale': float(_choice(rng, [1.0, 1.0, 1.0, 1e-2, 30.0]))}
     if kind == 'gcacgmm':
         specs['emb'] = {'kind': 'rclusters', 'shape': lead + [N, E], 'K': K,
                         'seed': int(rng.randint(2 ** 31)), 'layout': 'C',
-                        'sep': float(_choice(rng, [0.5, 2.0]))}
+                        'sep': float(_choice(rng, [0.5, 2.0])),
+                        'scale': float(_choice(rng, [1.0, 1.0, 1e-2, 30.0]))}
     specs['init'] = {'kind': _choice(rng, ['affiliation', 'affiliation',
                                            'affiliation_onehotish']),
                      'shape': lead + [K, N],
@@ -113,7 +115,8 @@ def _data_specs(rng, kind, K, D, F, N, E):
                      'layout': _choice(rng, ['C', 'C', 'F'])}
     sk = _choice(rng, ['none', 'none', 'real', 'int'])
     if sk == 'real':
-        specs['saliency'] = {'kind': 'uniform', 'low': 0.2, 'high': 1.8,
+        sc = float(_choice(rng, [1.0, 1.0, 1.0, 1e-2, 1e-4]))
+        specs['saliency'] = {'kind': 'uniform', 'low': 0.2 * sc, 'high': 1.8 * sc,
                              'shape': lead + [N],
                              'seed': int(rng.randint(2 ** 31))}
     elif sk == 'int':
@@ -174,6 +177,8 @@ def generate(run_seed, tier='quick'):
         F = int(rng.randint(1, 4))     # only 'full' supports leading axes
         opts = dict(opts, weight_constant_axis=_gen_opts(rng, 'cacgmm', F)['weight_constant_axis'])
     N = 4 * K * max(D, E if kind == 'gcacgmm' else 0) + int(rng.randint(0, 30))
+    if rng.randint(12) == 0:
+        N += int(rng.randint(150, 500))     # size-dependent code paths
     specs = _data_specs(rng, kind, K, D, F, N, E)
     max_it = 50 if thorough else 30
     n = int(rng.randint(1, max_it + 1)) if rng.randint(3) else int(rng.randint(1, 9))
